@@ -359,20 +359,26 @@ func minimise(t *testing.T, prop, tier string, seed uint64, params map[string]st
 			}
 		}
 	}
-	for i := 0; i < len(best); i++ {
-		if best[i] == 0 {
-			continue
-		}
-		cand := append([]uint32{}, best...)
-		cand[i] = 0
-		if r, ok := same(cand); ok {
-			best, bestRC = cand, r
-			continue
-		}
-		if best[i] > 1 {
-			cand[i] = best[i] / 2
+	for pass := 0; pass < 2; pass++ {
+		for i := 0; i < len(best); i++ {
+			if best[i] == 0 {
+				continue
+			}
+			cand := append([]uint32{}, best...)
+			cand[i] = 0
 			if r, ok := same(cand); ok {
 				best, bestRC = cand, r
+				continue
+			}
+			// Lower the value step by step: half, then decrement while that keeps the violation.
+			for _, v := range []uint32{best[i] / 2, best[i] - 1} {
+				if v == 0 || v >= best[i] {
+					continue
+				}
+				cand[i] = v
+				if r, ok := same(cand); ok {
+					best, bestRC = append([]uint32{}, cand...), r
+				}
 			}
 		}
 	}
